@@ -2,6 +2,7 @@ import FordModel.Proto
 import FordModel.Access
 import FordModel.AccessSpec
 import FordModel.AccessNames
+import FordModel.AccessImpl
 namespace Ford
 open Proto Access
 
@@ -77,6 +78,21 @@ def rstmtOf (s : Str) : Option RStmt :=
   | [['J'], raw, ps, rs] => (unhex raw).map (fun t => .genericR t (names ps) (names rs))
   | _ => (stmtOf s).map .plain
 
+/-- `M:<name>`: the body of a separate module procedure in the short form (`module procedure name`); anything else
+    is a statement -/
+def xstmtOf (s : Str) : Option XStmt :=
+  match splitOn ':' s with
+  | [['M'], n] => some (.impl n)
+  | _ => (rstmtOf s).map .stmt
+
+/-- `H:<name>:<perm>`: an interface body the host (ancestor module / parent submodule) makes visible -/
+def hostOf (s : Str) : Option (Str × Perm) :=
+  match splitOn ':' s with
+  | [['H'], n, [p]] => (permOf p).map (fun q => (n, q))
+  | _ => none
+
+def isHost (s : Str) : Bool := s.take 2 == ['H', ':']
+
 def colon (xs : List Str) : Str := joinSep ':' xs
 
 def showEnt (e : Ent) : List Str :=
@@ -106,11 +122,14 @@ def dispatchC04 : List Str → Option (List Str)
   | cmd :: args =>
     if cmd == "c04.run".toList then
       -- c04.run <variant> <m|s> stmt*      (variant letter `g`: generic-spec keys lose their blanks)
+      -- fields `H:name:perm` (host interface bodies) and `M:name` (short-form implementations) may stand among them
       match args with
-      | v :: scope :: stmts =>
-        match stmts.mapM rstmtOf with
-        | some rs => some ("ok".toList :: showOut (runRaw (variantOf v) (v.contains 'g') (scope == ['s']) rs))
-        | none => some ["bad-request".toList]
+      | v :: scope :: fields =>
+        match (fields.filter (fun f => !isHost f)).mapM xstmtOf, (fields.filter isHost).mapM hostOf with
+        | some xs, some host =>
+          let r := runX (variantOf v) (v.contains 'g') (scope == ['s']) host xs
+          some ("ok".toList :: showOut r.out ++ r.impls.map (fun k => colon [['M'], k.name, permName k.perm]))
+        | _, _ => some ["bad-request".toList]
       | _ => some ["bad-request".toList]
     else if cmd == "c04.spec".toList then
       -- c04.spec <attrs> <name> stmt*   (module entity)
